@@ -63,6 +63,10 @@ type loopSpec struct {
 	unroll   int
 	decr     *clause
 	line     int
+	ghosts   []*clause // kind "ghost": label = name, e = initial value (evaluated at loop entry)
+	steps    []*clause // kind "step": label = name, e = new value (evaluated at every back edge)
+	uses     []*clause // lemma/axiom instances assumed at the loop head
+	bodyUses []*clause // proof steps taken when the loop body is entered (loop condition known)
 }
 
 type siteSpec struct {
@@ -95,6 +99,7 @@ type funcContract struct {
 	ghostRes []string
 	noframe  bool
 	rawParams map[string]bool
+	readsMem []*clause // each: exprs[0]=lo, exprs[1]=hi
 	neverReturns bool
 }
 
@@ -129,7 +134,7 @@ type pkgContracts struct {
 	text     string
 }
 
-var kwRe = regexp.MustCompile(`^(mode|rawfield|spec|pred|ufun|axiom|lemma|func|property|trusted|requires|ensures|deep|modifies|inline|loop|at|maypanic|panics-unless|seam|opaque|using|by|noframe|raw|noreturn|ghost)\b`)
+var kwRe = regexp.MustCompile(`^(mode|rawfield|spec|pred|ufun|axiom|lemma|func|property|trusted|requires|ensures|deep|modifies|inline|loop|at|maypanic|panics-unless|seam|opaque|using|by|noframe|raw|noreturn|ghost|reads)\b`)
 
 func loadContracts(dir, pkgPath string) (*pkgContracts, error) {
 	file := filepath.Join(dir, "zz_contracts_verif.go")
@@ -282,6 +287,27 @@ func (fc *funcContract) addClause(kw, rest string, line int) error {
 		fc.noframe = true
 	case "noreturn":
 		fc.neverReturns = true
+	case "reads":
+		// reads mem(lo, hi) [, mem(lo, hi) ...]
+		for _, p := range splitTop(rest, ';') {
+			p = strings.TrimSpace(p)
+			if !strings.HasPrefix(p, "mem(") || !strings.HasSuffix(p, ")") {
+				return fmt.Errorf("reads mem(lo, hi); mem(lo, hi)")
+			}
+			parts := splitTop(p[4:len(p)-1], ',')
+			if len(parts) != 2 {
+				return fmt.Errorf("reads mem(lo, hi)")
+			}
+			c := &clause{kind: "reads", src: p, line: line}
+			for _, x := range parts {
+				e, err := parseSexpr(x)
+				if err != nil {
+					return err
+				}
+				c.exprs = append(c.exprs, e)
+			}
+			fc.readsMem = append(fc.readsMem, c)
+		}
 	case "raw":
 		if fc.rawParams == nil {
 			fc.rawParams = map[string]bool{}
@@ -335,7 +361,7 @@ func (fc *funcContract) addClause(kw, rest string, line int) error {
 		}
 	case "loop":
 		// loop k (hint) invariant expr | unroll N | decreases expr
-		m := regexp.MustCompile(`^(\d+)\s*(\(([^)]*)\))?\s*(invariant|unroll|decreases)\s*(.*)$`).FindStringSubmatch(rest)
+		m := regexp.MustCompile(`^(\d+)\s*(\(([^)]*)\))?\s*(invariant|unroll|decreases|ghost|step|use|inbody)\s*(.*)$`).FindStringSubmatch(rest)
 		if m == nil {
 			return fmt.Errorf("bad loop clause: %s", rest)
 		}
@@ -371,6 +397,38 @@ func (fc *funcContract) addClause(kw, rest string, line int) error {
 				return err
 			}
 			ls.decr = &clause{kind: "decreases", e: e, src: m[5], line: line}
+		case "ghost", "step":
+			j := strings.Index(m[5], "=")
+			if j < 0 {
+				return fmt.Errorf("loop %s NAME = expr", m[4])
+			}
+			e, err := parseSexpr(m[5][j+1:])
+			if err != nil {
+				return err
+			}
+			c := &clause{kind: m[4], label: strings.TrimSpace(m[5][:j]), e: e, src: m[5], line: line}
+			if m[4] == "ghost" {
+				ls.ghosts = append(ls.ghosts, c)
+			} else {
+				ls.steps = append(ls.steps, c)
+			}
+		case "use", "inbody":
+			if m[4] == "inbody" {
+				m[5] = strings.TrimSpace(strings.TrimPrefix(strings.TrimSpace(m[5]), "use"))
+			}
+			c := &clause{kind: "use", src: m[5], line: line}
+			for _, p := range splitTop(m[5], ';') {
+				e, err := parseSexpr(p)
+				if err != nil {
+					return err
+				}
+				c.exprs = append(c.exprs, e)
+			}
+			if m[4] == "inbody" {
+				ls.bodyUses = append(ls.bodyUses, c)
+			} else {
+				ls.uses = append(ls.uses, c)
+			}
 		}
 	case "at":
 		// at <site words> : assert expr | use f(args), g(args) | ghost x = e
@@ -473,6 +531,10 @@ func parseFuncHeader(rest string) (*funcContract, error) {
 	// closures: "Outer$1(params) (results)" - '$' is not a Go identifier char
 	src := rest
 	clo := ""
+	if m := regexp.MustCompile(`^((\([^)]*\)\s*)?[A-Za-z_][A-Za-z0-9_]*)@([A-Za-z_][A-Za-z0-9_]*)`).FindStringSubmatch(src); m != nil {
+		clo = "@" + m[3]
+		src = m[1] + src[len(m[0]):]
+	}
 	if m := regexp.MustCompile(`([A-Za-z_][A-Za-z0-9_]*)((\$\d+)+)`).FindStringSubmatchIndex(src); m != nil {
 		clo = src[m[4]:m[5]]
 		src = src[:m[4]] + src[m[5]:]
